@@ -1,6 +1,7 @@
 import SaphyrVerif.Gen.Tables
 import SaphyrVerif.Model.SerScalar
 import SaphyrVerif.Model.Emitter
+import SaphyrVerif.Spec.EmitReader
 /-!
 Pins that tie the hand-written serializer model to the tables regenerated from the Rust source
 (`Gen/Tables.lean`, written by `tools/extract_tables.py` on every run from `src/serializer_options.rs`,
@@ -30,6 +31,11 @@ theorem opts_default_pinned :
 
 /-- a valid default: `indent_step ≥ 1` (C13's standing hypothesis holds for the default options) -/
 theorem default_indent_step_valid : 1 ≤ Gen.serOptDefault_indentStep := by decide
+
+/-- the emitter model switches to an explicit key at the source's `MAX_IMPLICIT_KEY_CHARS`, and that threshold does
+not exceed what the reference reader accepts as an implicit key (the direction the round trip needs) -/
+theorem implicit_key_limit_pinned :
+    Emit.maxImplicitKeyChars = Gen.serMaxImplicitKeyChars ∧ Gen.serMaxImplicitKeyChars ≤ Emit.maxImplicitKey := by decide
 
 /-- both predicates use the same first-byte tables -/
 theorem plain_predicates_share_tables :
